@@ -1,7 +1,148 @@
-(* Properties/C19.v — placeholder while the proofs are being built. *)
-From Coq Require Import ZArith List.
-From Synnax Require Import Arc.Syntax Arc.Spec Arc.Wasm Arc.Compile Arc.Guard.
+(* Properties/C19.v — Compiled Arc code computes what the language specification says.
+   Only statements, each closed by [exact], each followed by Print Assumptions.
 
-Theorem C19_placeholder : forall e, reparse (EParen e) = EParen (reparse e).
-Proof. reflexivity. Qed.
-Print Assumptions C19_placeholder.
+   Objects: Arc/Syntax.v (typed scalar fragment, the spec's parse tree), Arc/Spec.v (reference
+   semantics written from arc/docs/spec.md), Arc/Compile.v (the compiler's lowering, copied
+   from the Go code), Arc/Wasm.v (semantics of the emitted instructions, host math.pow),
+   Arc/Guard.v (the signatures of the known divergences), Arc/Sim.v (register images). *)
+From Coq Require Import ZArith List Bool.
+From Synnax Require Import Arc.Syntax Arc.Spec Arc.Wasm Arc.Compile Arc.Guard Arc.Sim Arc.FloatExec
+  Arc.CorrectExpr Arc.CorrectStmt Arc.Correct.
+Import ListNotations.
+Local Open Scope Z_scope.
+
+(* Compiler correctness, for EVERY choice of the float operations, every well-typed function of
+   the fragment, every argument vector of the parameter types: if neither the program text nor
+   the (spec-level) evaluation of the call carries one of the eleven signatures of Arc/Guard.v,
+   then the function compiles, and running the compiled body on the register images of the
+   arguments returns the register image of the value spec.md defines (early returns, locals,
+   conditionals, short-circuit logic, wrapping arithmetic, casts, '^' through the host import),
+   and traps with "integer divide by zero" exactly when spec.md prescribes a runtime error.
+   [Unspec]: spec.md is silent (negative integer exponent, float->int of NaN), nothing claimed.
+   The full statement (without the two guard hypotheses) is FALSE: see the _refuted theorems. *)
+Theorem C19_compile_correct_partial : forall (fo : float_ops) (f : func) (args : list (val fo)),
+  check_func f = true -> locals_ok f = true ->
+  Forall2 (vok fo) (f_params f) args ->
+  static_flags f = [] -> dyn_flags fo f args = [] ->
+  exists w, compile f = Some w /\
+    match spec_run fo f args with
+    | Ok v => wasm_run fo w (wvs fo (f_params f) args) = WOk (wv fo (f_ret f) v)
+    | RtErr => wasm_run fo w (wvs fo (f_params f) args) = WTrap TDivZero
+    | Unspec => True
+    end.
+Proof. exact compile_correct_partial. Qed.
+Print Assumptions C19_compile_correct_partial.
+
+(* The same at the level of one expression, in any scope and any hint context the compiler can
+   create: the emitted code pushes the register image of the specified value on any stack. *)
+Theorem C19_expr_correct_partial : forall (fo : float_ops) (tys : list ty) (sc : list nat) (e : expr)
+    (hint : option ty) (t : ty),
+  type_of tys sc e = Some t ->
+  hint_ok tys hint e = true -> float_mod_free tys e = true -> lits_small e = true ->
+  exists code, cexpr tys hint e = Some (code, t) /\
+    forall r ls, sim fo tys sc r ls -> dflags fo tys r e = [] ->
+      esim fo t code (eval fo tys r e) ls.
+Proof. exact cexpr_correct. Qed.
+Print Assumptions C19_expr_correct_partial.
+
+(* Where no unary operator stands in front of an unparenthesised power, the implementation's
+   parse is the spec's parse. *)
+Theorem C19_parse_agrees_partial : forall e, uop_free e = true -> reparse e = e.
+Proof. exact reparse_id. Qed.
+Print Assumptions C19_parse_agrees_partial.
+
+(* ---- each guard is necessary: one witness per signature (known findings) ---- *)
+Theorem C19_unary_minus_over_pow_refuted :
+  wf w_unary_pow = true /\ static_flags w_unary_pow = [TgUnaryOverPow] /\
+  dyn_flags fo_exec w_unary_pow (ints [3]) = [] /\
+  spec_z w_unary_pow (ints [3]) = Some (-9) /\
+  wres_z (run_raw w_unary_pow (ints [3])) = Some (true, inl 9).
+Proof. exact unary_minus_over_pow_refuted. Qed.
+Print Assumptions C19_unary_minus_over_pow_refuted.
+
+Theorem C19_literal_hint_leak_refuted :
+  wf w_hint_leak = true /\ static_flags w_hint_leak = [TgHintLeak] /\
+  option_map fst (run_raw w_hint_leak (ints [1])) = Some false.
+Proof. exact literal_hint_leak_refuted. Qed.
+Print Assumptions C19_literal_hint_leak_refuted.
+
+Theorem C19_float_modulo_refuted :
+  wf w_float_mod = true /\ static_flags w_float_mod = [TgFloatMod] /\ compile w_float_mod = None.
+Proof. exact float_modulo_refuted. Qed.
+Print Assumptions C19_float_modulo_refuted.
+
+Theorem C19_if_condition_not_i32_refuted :
+  wf w_if64 = true /\ static_flags w_if64 = [TgIfCond64] /\
+  option_map fst (run_raw w_if64 (ints [1])) = Some false.
+Proof. exact if_condition_not_i32_refuted. Qed.
+Print Assumptions C19_if_condition_not_i32_refuted.
+
+Theorem C19_u64_literal_refuted :
+  wf w_biglit = true /\ static_flags w_biglit = [TgBigU64Lit] /\ compile w_biglit = None.
+Proof. exact u64_literal_refuted. Qed.
+Print Assumptions C19_u64_literal_refuted.
+
+Theorem C19_narrow_int_arith_overflow_refuted :
+  wf w_narrow = true /\ static_flags w_narrow = [] /\
+  dyn_flags fo_exec w_narrow (ints [127; 1]) = [TgNarrowOverflow] /\
+  spec_z w_narrow (ints [127; 1]) = Some (-128) /\
+  wres_z (run_raw w_narrow (ints [127; 1])) = Some (true, inl 128).
+Proof. exact narrow_int_arith_overflow_refuted. Qed.
+Print Assumptions C19_narrow_int_arith_overflow_refuted.
+
+Theorem C19_signed_div_overflow_refuted :
+  wf w_divov = true /\ static_flags w_divov = [] /\
+  dyn_flags fo_exec w_divov (ints [-2147483648; -1]) = [TgSignedDivOverflow] /\
+  spec_z w_divov (ints [-2147483648; -1]) = Some (-2147483648) /\
+  wres_z (run_raw w_divov (ints [-2147483648; -1])) = Some (true, inr TIntOverflow).
+Proof. exact signed_div_overflow_refuted. Qed.
+Print Assumptions C19_signed_div_overflow_refuted.
+
+Theorem C19_same_register_cast_refuted :
+  wf w_samereg = true /\ static_flags w_samereg = [] /\
+  dyn_flags fo_exec w_samereg (ints [300]) = [TgSameRegCast] /\
+  spec_z w_samereg (ints [300]) = Some 44 /\
+  wres_z (run_raw w_samereg (ints [300])) = Some (true, inl 300).
+Proof. exact same_register_cast_refuted. Qed.
+Print Assumptions C19_same_register_cast_refuted.
+
+Theorem C19_sign_change_cast_refuted :
+  wf w_signcast = true /\ static_flags w_signcast = [] /\
+  dyn_flags fo_exec w_signcast (ints [-1]) = [TgSignCast] /\
+  spec_z w_signcast (ints [-1]) = Some 0 /\
+  wres_z (run_raw w_signcast (ints [-1])) = Some (true, inl 18446744073709551615).
+Proof. exact sign_change_cast_refuted. Qed.
+Print Assumptions C19_sign_change_cast_refuted.
+
+Theorem C19_float_to_int_refuted :
+  wf w_f2i = true /\ static_flags w_f2i = [] /\
+  dyn_flags fo_exec w_f2i a_3e9 = [TgFloatToInt] /\
+  spec_z w_f2i a_3e9 = Some 2147483647 /\
+  wres_z (run_raw w_f2i a_3e9) = Some (true, inr TIntOverflow).
+Proof. exact float_to_int_refuted. Qed.
+Print Assumptions C19_float_to_int_refuted.
+
+Theorem C19_u64_pow_exponent_refuted :
+  wf w_powexp = true /\ static_flags w_powexp = [] /\
+  dyn_flags fo_exec w_powexp (ints [3; 9223372036854775808]) = [TgPowExp63] /\
+  spec_z w_powexp (ints [3; 9223372036854775808]) = Some 1 /\
+  wres_z (run_raw w_powexp (ints [3; 9223372036854775808])) = Some (true, inl 0).
+Proof. exact u64_pow_exponent_refuted. Qed.
+Print Assumptions C19_u64_pow_exponent_refuted.
+
+(* Non-vacuity: a function with two locals, casts, a conditional with an early return, an
+   else-if, short-circuit logic and a division meets every hypothesis of
+   C19_compile_correct_partial on three calls; its value is non-trivial and one call divides
+   by zero (runtime error in the spec, trap in the compiled code). *)
+Example C19_nonvacuous :
+  wf w_ok = true /\
+  no_flags w_ok (ints [-7; 4000000000]) = true /\
+  spec_z w_ok (ints [-7; 4000000000]) = Some 28000000000 /\
+  wres_z (run_raw w_ok (ints [-7; 4000000000])) = Some (true, inl 28000000000) /\
+  no_flags w_ok (ints [6; 7]) = true /\
+  spec_z w_ok (ints [6; 7]) = Some 21 /\
+  wres_z (run_raw w_ok (ints [6; 7])) = Some (true, inl 21) /\
+  no_flags w_ok (ints [6; 5]) = true /\
+  spec_is_err w_ok (ints [6; 5]) = true /\
+  wres_z (run_raw w_ok (ints [6; 5])) = Some (true, inr TDivZero).
+Proof. exact compile_correct_nonvacuous. Qed.
